@@ -81,6 +81,9 @@ def components():
     add('sue', lambda i: [('l%d' % i, S(I(1), until={'u': 'at_end'}))])
     add('suo', lambda i: [('l%d' % i, S(I(1), until={'u': 'off_ge', 'v': 1}))])
     add('suo2', lambda i: [('h%d' % i, I(1)), ('l%d' % i, S(D(C(1)), until={'u': 'off_ge', 'v': 3}))])
+    add('sdn', lambda i: [('n%d' % i, dict(I(1), desc={'k': 'autolength', 'of': 'l%d' % i})), ('l%d' % i, S(I(1), F('n%d' % i)))])
+    add('ddn', lambda i: [('n%d' % i, dict(I(1), desc={'k': 'autolength', 'of': 'd%d' % i})), ('d%d' % i, D(F('n%d' % i)))])
+    add('ddx', lambda i: [('n%d' % i, dict(I(2), desc={'k': 'autolength', 'of': 'd%d' % i})), ('h%d' % i, I(1)), ('d%d' % i, D(BIN('mul', F('n%d' % i), C(1))))])
     add('su', lambda i: [('l%d' % i, S(I(1), until={'u': 'last_eq', 'v': 0}))])
     add('sur', lambda i: [('l%d' % i, S(R(SUB), until={'u': 'last_eq', 'attr': 'x', 'v': 0}))])
     add('sul', lambda i: [('l%d' % i, S(I(1), until={'u': 'len_eq', 'v': 2}))])
@@ -114,6 +117,10 @@ def components():
     add('p_shm2d', lambda i: [('d%d' % i, pos(D(C(3)), 'shift', C(-2)))])
     add('p_shn', lambda i: [('n%d' % i, I(1)), ('a%d' % i, pos(I(1), 'shift', F('n%d' % i)))])
     add('p_al2', lambda i: [('a%d' % i, pos(I(1), 'aligned', C(2)))])
+    add('p_al3', lambda i: [('a%d' % i, pos(I(1), 'aligned', C(3)))])
+    add('p_al6i', lambda i: [('a%d' % i, pos(I(1), 'aligned', C(6), ref='innermost-pkt'))])
+    add('p_em3', lambda i: [('e%d' % i, pos(EM(), 'aligned', C(3)))])
+    add('sa3', lambda i: [('n%d' % i, I(1)), ('l%d' % i, S(I(1), F('n%d' % i), aligned=3))])
     add('p_al4i', lambda i: [('a%d' % i, pos(I(2), 'aligned', C(4), ref='innermost-pkt'))])
     add('p_al2c', lambda i: [('a%d' % i, pos(I(1), 'aligned', C(2), ref='current-offset'))])
     add('p_aln', lambda i: [('n%d' % i, I(1, default=2)), ('a%d' % i, pos(I(1), 'aligned', F('n%d' % i), ref='innermost-pkt'))])
@@ -132,7 +139,7 @@ COMPONENTS = components()
 
 # one representative per mechanism, used for pairs in the quick tier and triples in the thorough tier
 REDUCED = ['i1', 'i2l', 'i3', 'dn', 'dx', 'm0', 'mab', 'rx', 'rxlb', 'b35', 'r1', 'rs', 'sn', 'ss', 'su', 'suo', 'sua', 'sw', 'sa', 'sr', 'o1', 'os', 'or',
-           'p_at3', 'p_atn', 'p_shm1', 'p_shm2d', 'p_al2', 'p_al4i', 'p_em4', 'p_d0', 'eos']
+           'p_at3', 'p_atn', 'p_shm1', 'p_shm2d', 'p_al2', 'p_al3', 'p_al4i', 'p_em4', 'p_d0', 'eos']
 
 
 def make_decl(names, opts=None, wrapper='a', name='K'):
@@ -185,6 +192,8 @@ def scan(P):
                     if not node.get('incl'):
                         feats.add('regex_nonkept')
                     feats.add('regex')
+                    if b'$' in node['pat']:
+                        feats.add('dollar')
             if node['mode'] == 'eos':
                 feats.add('eos')
         elif k == 'ref':
@@ -265,6 +274,8 @@ def byte_alphabet(P, seed=0, maxsyms=6):
     filler = [0x71, 0x7a, 0x6b, 0x6a][seed % 4]          # q z k j
     if filler not in syms:
         syms.append(filler)
+    if 'eos' in feats or 'dollar' in feats:
+        syms.insert(3, 0x0a)          # "$" also matches before a trailing newline: the end of input must really be the end
     if 0xff not in syms:
         syms.append(0xff)
     return syms[:maxsyms]
